@@ -22,7 +22,7 @@ impl<R> RecoveryHandle<R> {
     pub fn into_inner(mut self) -> R {
         loop {
             #[cfg(metrics_verif)]
-            metrics::verif::point("spin:recover.try_unwrap");
+            metrics::verif::point("spin0:recover.try_unwrap");
             match Arc::try_unwrap(self.handle) {
                 Ok(recorder) => break recorder,
                 Err(handle) => {
